@@ -67,7 +67,11 @@ def build_job(group, cases, workdir):
             nm = "h%d" % n
             one_fields.append({"name": nm, "type": t})
         names[nm] = c
-    types.append({"kind": "OBJECT", "name": "T", "fields": tfields})
+    # T restates the fields of an interface TI that declares them with every `!` removed (a legal covariant
+    # narrowing): what counts is the modifier list T itself writes
+    ti = [{"name": f["name"], "type": {"q": [x for x in f["type"]["q"] if x != "R"], "base": f["type"]["base"]}} for f in tfields]
+    types.append({"kind": "INTERFACE", "name": "TI", "fields": ti})
+    types.append({"kind": "OBJECT", "name": "T", "interfaces": ["TI"], "fields": tfields})
     if in_fields:
         types.append({"kind": "INPUT_OBJECT", "name": "In", "inputFields": in_fields})
         vars_.append({"name": "inp", "type": tr("In")})
